@@ -45,6 +45,10 @@ type c17Step struct {
 	Cap  int  `json:"cap"`
 	Wait bool `json:"wait"`
 	Gap  int  `json:"gap"`
+	// saturated scripts only (issued back-to-back, nobody waits for a done channel, nobody
+	// releases): scheduler yields before the step / let an applied grow be taken up first
+	Yield  int  `json:"yield,omitempty"`
+	Settle bool `json:"settle,omitempty"`
 }
 
 type c17Script struct {
@@ -54,7 +58,10 @@ type c17Script struct {
 	MinIter int       `json:"minIter"`
 	HoldMax int       `json:"holdMax"`
 	Cancels bool      `json:"cancels"`
-	Steps   []c17Step `json:"steps"`
+	// Saturate: every holder keeps its slot until the whole change script has been issued
+	// (semaphore exhausted, further acquirers queued), then the normal churn starts
+	Saturate bool      `json:"saturate,omitempty"`
+	Steps    []c17Step `json:"steps"`
 }
 
 type c17Change struct {
@@ -75,9 +82,14 @@ type c17Mon struct {
 	changes     []*c17Change
 	epOverlap   bool
 	epGrowOverS bool
-	epKind      string
-	lastApplied string
-	acquires    int
+	// an identical repeat (same value as the capacity set last) was issued while a shrink had
+	// not been applied yet / a grow was issued after such a repeat over a still unapplied shrink
+	epSameOverS          bool
+	epGrowAfterSameOverS bool
+	prevSameOverS        bool
+	epKind               string
+	lastApplied          string
+	acquires             int
 	maxHolders  int
 	freedAtCap  bool
 	history     []string
@@ -91,6 +103,8 @@ func (m *c17Mon) ctxLocked() string {
 	switch {
 	case m.pending == 0:
 		return "steady:after-" + m.lastApplied
+	case m.epGrowAfterSameOverS:
+		return "overlap:grow-issued-after-identical-repeat-over-unapplied-shrink"
 	case m.epGrowOverS:
 		return "overlap:grow-issued-over-unapplied-shrink"
 	case m.epOverlap:
@@ -197,18 +211,33 @@ func (m *c17Mon) issue(s *Semaphore, st c17Step) *c17Change {
 	from := m.lastIssued
 	ch := &c17Change{from: from, to: st.Cap}
 	kind := c17Kind(from, st.Cap)
+	sameOverS, growAfterSame, growRightAfterSame := false, false, false
 	if m.pending > 0 {
 		m.epOverlap = true
-		if st.Cap > from {
-			for _, o := range m.changes {
-				if o.to < o.from && !c17Closed(o.done) {
-					m.epGrowOverS = true
+		shrinkUnapplied := false
+		for _, o := range m.changes {
+			if o.to < o.from && !c17Closed(o.done) {
+				shrinkUnapplied = true
+			}
+		}
+		if shrinkUnapplied {
+			switch kind {
+			case "grow":
+				m.epGrowOverS = true
+				if m.epSameOverS {
+					m.epGrowAfterSameOverS = true
+					growAfterSame = true
+					growRightAfterSame = m.prevSameOverS
 				}
+			case "same":
+				m.epSameOverS = true
+				sameOverS = true
 			}
 		}
 	} else {
 		m.epKind = kind
 	}
+	m.prevSameOverS = sameOverS
 	if st.Cap > m.bound {
 		m.bound = st.Cap
 	}
@@ -218,6 +247,15 @@ func (m *c17Mon) issue(s *Semaphore, st c17Step) *c17Change {
 	m.note(fmt.Sprintf("issue %d->%d (outstanding %d, holders %d)", from, st.Cap, m.pending, m.holders))
 	m.mu.Unlock()
 	m.r.Count("change_"+kind, 1)
+	if sameOverS {
+		m.r.Count("sem_identical_repeat_issued_over_unapplied_shrink", 1)
+	}
+	if growAfterSame {
+		m.r.Count("sem_grow_issued_after_identical_repeat_over_unapplied_shrink", 1)
+	}
+	if growRightAfterSame {
+		m.r.Count("sem_grow_issued_right_after_identical_repeat_over_unapplied_shrink", 1)
+	}
 
 	done := s.SetMaxCount(int64(st.Cap))
 	ch.done = done
@@ -230,6 +268,8 @@ func (m *c17Mon) issue(s *Semaphore, st c17Step) *c17Change {
 			if m.pending == 0 {
 				m.bound = m.lastIssued
 				switch {
+				case m.epGrowAfterSameOverS:
+					m.lastApplied = "overlap-grow-after-identical-repeat-over-shrink"
 				case m.epGrowOverS:
 					m.lastApplied = "overlap-grow-over-shrink"
 				case m.epOverlap:
@@ -238,6 +278,7 @@ func (m *c17Mon) issue(s *Semaphore, st c17Step) *c17Change {
 					m.lastApplied = m.epKind
 				}
 				m.epOverlap, m.epGrowOverS, m.epKind = false, false, ""
+				m.epSameOverS, m.epGrowAfterSameOverS, m.prevSameOverS = false, false, false
 				m.changes = nil
 				m.note(fmt.Sprintf("all applied: cap=%d holders=%d", m.bound, m.holders))
 			}
@@ -251,7 +292,8 @@ func (m *c17Mon) issue(s *Semaphore, st c17Step) *c17Change {
 
 func c17GenScript(rng *rand.Rand, i int) *c17Script {
 	kinds := []string{"steady", "grow", "shrink-below-usage", "shrink-then-grow-b2b", "repeated-identical",
-		"grow-then-shrink-b2b", "shrink-shrink-b2b", "sequential-mix", "random-mix", "shrink-grow-sequential"}
+		"grow-then-shrink-b2b", "shrink-shrink-b2b", "sequential-mix", "random-mix", "shrink-grow-sequential",
+		"saturated-b2b-mix"}
 	s := &c17Script{Kind: kinds[i%len(kinds)], Workers: 64, MinIter: 2 + rng.Intn(3), HoldMax: []int{0, 3, 20, 60}[rng.Intn(4)], Cancels: rng.Intn(2) == 0}
 	capv := func() int { return 1 + rng.Intn(12) }
 	gap := func() int { return []int{0, 1, 5, 20, 40}[rng.Intn(5)] }
@@ -306,6 +348,14 @@ func c17GenScript(rng *rand.Rand, i int) *c17Script {
 		mid := 2 + rng.Intn(cur-2)
 		add(mid, false, 10+gap())
 		add(1+rng.Intn(mid-1), true, 0)
+	case "saturated-b2b-mix":
+		// 3-6 changes issued back-to-back while every slot is held and nobody releases: shrinks
+		// below the usage, identical repeats of the value set last, grows, returns to earlier values
+		s.Saturate = true
+		s.Cap0 = 2 + rng.Intn(9)
+		for _, c := range c17SaturatedCaps(rng, s.Cap0) {
+			s.Steps = append(s.Steps, c17Step{Cap: c, Yield: []int{0, 0, 1, 5}[rng.Intn(4)], Settle: rng.Intn(4) == 0})
+		}
 	case "sequential-mix":
 		n := 3 + rng.Intn(4)
 		for k := 0; k < n; k++ {
@@ -320,9 +370,67 @@ func c17GenScript(rng *rand.Rand, i int) *c17Script {
 	return s
 }
 
+// c17SaturatedCaps draws the capacities of a back-to-back script: 3-6 values, each a shrink, an
+// identical repeat, a grow or a return to a value used earlier (1..20).
+func c17SaturatedCaps(rng *rand.Rand, cap0 int) []int {
+	n := 3 + rng.Intn(4)
+	cur := cap0
+	seen := []int{cap0}
+	var out []int
+	for k := 0; k < n; k++ {
+		c := cur
+		switch x := rng.Intn(10); {
+		case x < 4:
+			if cur > 1 {
+				c = 1 + rng.Intn(cur-1)
+			}
+		case x < 7:
+			// identical repeat
+		case x < 9:
+			c = cur + 1 + rng.Intn(4)
+		default:
+			c = seen[rng.Intn(len(seen))]
+		}
+		if c > 20 {
+			c = 20
+		}
+		out = append(out, c)
+		seen = append(seen, c)
+		cur = c
+	}
+	return out
+}
+
+// c17Quiesce sleeps at least 2ms and then until no acquire/applied event has been seen
+// for 1ms (at most ~100ms).  It is only a lower bound on real time, never a verdict.
+func c17Quiesce(m *c17Mon) {
+	time.Sleep(2 * time.Millisecond)
+	snap := func() [2]int { // cancelled acquires of queued workers are not of interest here
+		m.mu.Lock()
+		defer m.mu.Unlock()
+		return [2]int{m.acquires, m.pending}
+	}
+	last := snap()
+	for k := 0; k < 100; k++ {
+		time.Sleep(time.Millisecond)
+		e := snap()
+		if e == last {
+			return
+		}
+		last = e
+	}
+}
+
 func c17RunScript(r *kit.Run, sc *c17Script, seed int64) {
 	m := &c17Mon{r: r, script: sc, bound: sc.Cap0, lastIssued: sc.Cap0, lastApplied: "initial", abort: make(chan struct{})}
 	s := NewSem(uint32(sc.Cap0))
+	gate := make(chan struct{}) // saturated scripts: holders keep their slot until it opens
+	var gateOnce sync.Once
+	openGate := func() { gateOnce.Do(func() { close(gate) }) }
+	if !sc.Saturate {
+		openGate()
+	}
+	defer openGate()
 	var stop int32
 	var workers sync.WaitGroup
 	for w := 0; w < sc.Workers; w++ {
@@ -365,6 +473,10 @@ func c17RunScript(r *kit.Run, sc *c17Script, seed int64) {
 					}
 				}
 				m.enter()
+				select {
+				case <-gate:
+				case <-m.abort:
+				}
 				hold := wr.Intn(sc.HoldMax + 1)
 				for k := 0; k < hold; k++ {
 					runtime.Gosched()
@@ -377,7 +489,30 @@ func c17RunScript(r *kit.Run, sc *c17Script, seed int64) {
 			}
 		}()
 	}
+	full := func() bool {
+		m.mu.Lock()
+		defer m.mu.Unlock()
+		return m.holders >= m.bound
+	}
+	if sc.Saturate {
+		if m.waitUntil("the semaphore to be exhausted", full) {
+			// lower bound only: lets the other workers queue in Acquire ahead of whatever the
+			// changes will queue
+			time.Sleep(300 * time.Microsecond)
+			if full() {
+				r.Count("sem_b2b_scripts_started_exhausted", 1)
+			}
+		}
+	}
 	for _, st := range sc.Steps {
+		for k := 0; k < st.Yield; k++ {
+			runtime.Gosched()
+		}
+		if st.Settle {
+			for k := 0; k < 40 && !full(); k++ { // not a verdict
+				time.Sleep(50 * time.Microsecond)
+			}
+		}
 		m.mu.Lock()
 		target := m.acquires + st.Gap
 		m.mu.Unlock()
@@ -398,6 +533,12 @@ func c17RunScript(r *kit.Run, sc *c17Script, seed int64) {
 				break
 			}
 		}
+	}
+	if sc.Saturate {
+		// nobody has released yet: give an acquire beyond the capacity in force the chance to
+		// show (lower bound on real time only), then let the holders go
+		c17Quiesce(m)
+		openGate()
 	}
 	atomic.StoreInt32(&stop, 1)
 	wdone := make(chan struct{})
@@ -443,7 +584,7 @@ func c17RunScript(r *kit.Run, sc *c17Script, seed int64) {
 func TestVerif_C17_Semaphore(t *testing.T) {
 	r := kit.Start(t, "C17")
 	defer r.Finish()
-	r.Rule("scripts over a real sem.Semaphore: 64 workers Acquire / AcquireWithContext (contexts cancelled while queued in half of the scripts) / hold / Release while a controller runs a SetMaxCount script (same ten kinds as the listener part: steady, grow, shrink below usage, shrink-then-grow back-to-back, sequential shrink-grow, repeated identical, grow-then-shrink b2b, shrink-shrink b2b, sequential and random mixes; completion observed on the done channel); oracle: holders <= capacity in force at every acquire; exact free-capacity audit (Weighted.TryAcquire) at the final quiescent point; distinct = (kind, cap0, #steps, max holders, final cap, cancels)")
+	r.Rule("scripts over a real sem.Semaphore: 64 workers Acquire / AcquireWithContext (contexts cancelled while queued in half of the scripts) / hold / Release while a controller runs a SetMaxCount script (same eleven kinds as the listener part: steady, grow, shrink below usage, shrink-then-grow back-to-back, sequential shrink-grow, repeated identical, grow-then-shrink b2b, shrink-shrink b2b, sequential and random mixes, and the saturated back-to-back mix: every holder keeps its slot, the other workers are queued, then 3-6 changes - shrinks below the usage, identical repeats of the value set last also over an unapplied shrink, grows, returns to earlier values - are issued without waiting for a done channel and without any release, only then the holders let go; completion observed on the done channel); oracle: holders <= capacity in force at every acquire; exact free-capacity audit (Weighted.TryAcquire) at the final quiescent point; distinct = (kind, cap0, #steps, max holders, final cap, cancels)")
 	r.Assume("capacities >= 1; capacity in force while changes are outstanding = max of the capacities involved")
 	n := r.N(900, 30000)
 	for i := 0; i < n; i++ {
@@ -458,7 +599,8 @@ func TestVerif_C17_Semaphore(t *testing.T) {
 		}
 		c17RunScript(r, sc, rng.Int63())
 	}
-	for _, k := range []string{"acquires_reaching_cap", "released_capacity_reused", "acquires_cancelled", "change_grow", "change_shrink", "change_same", "capacity_audits", "scripts_completed"} {
+	for _, k := range []string{"acquires_reaching_cap", "released_capacity_reused", "acquires_cancelled", "change_grow", "change_shrink", "change_same", "capacity_audits", "scripts_completed",
+		"sem_b2b_scripts_started_exhausted", "sem_identical_repeat_issued_over_unapplied_shrink", "sem_grow_issued_right_after_identical_repeat_over_unapplied_shrink"} {
 		r.Require(k, 1)
 	}
 }
